@@ -49,7 +49,7 @@ K = {
     },
     "C01": {
         "prefix": r"c01_",
-        "thorough_only": r"c01_(call_returnvoid_3|call_return_2|get_field_1_t|set_field_1_t|construct_struct_0|not_oo|reg_store_all_offsets)",
+        "thorough_only": r"c01_(call_returnvoid_3|call_return_2|get_field_1_t|set_field_1_t|construct_struct_0|not_oo|reg_store_all_offsets|push_bool|push_addr)",
         "jobs": 12,
         "functions": ["vm::VmGreenThread::step (stack, constant, jump, call/return, struct/variant/closure arms, Not, EqualBool, string intrinsics)",
                       "vm::VmGreenThread::load_offset_or_top / store_offset_or_top", "assembly::Reg::encode", "vm::CallData"],
@@ -71,15 +71,6 @@ K = {
                   "channels as GC roots, FFI threads.",
         "assumptions": ["composition of the one-step obligations into whole collection cycles is argued in kani/vm_gc.rs"],
     },
-    "C07": {
-        "prefix": r"c07_|c26_push_len",
-        "jobs": 8, "quick_timeout": 900, "thorough_timeout": 1800,
-        "functions": ["vm::VmGreenThread::{sweep, maybe_gc}", "Drop for VmGreenThread", "Drop for VmSharedReadonly", "ArrayPush heap accounting"],
-        "bounds": "one sweep iteration over a two-object heap with symbolic mark bits (freed iff unmarked, accounting, phase end), the pacing "
-                  "trigger for symbolic heap sizes < 2^40, drop of a thread / of the shared block frees the allocation (solver-side liveness "
-                  "predicate). Outside: boundedness of whole programs (composition), channels.",
-        "assumptions": ["liveness of an allocation is decided by CBMC's memory model; such a verdict cannot be replayed natively (reported as exit 2)"],
-    },
     "C08": {
         "prefix": r"c08_", "jobs": 8, "quick_timeout": 900,
         "functions": ["vm::VmGreenThread::step (SpawnTask)", "vm::Value::deep_copy (all value kinds)", "ChannelObject::copy"],
@@ -99,38 +90,12 @@ K = {
                   "threads, queues longer than 2.",
         "assumptions": ["std::collections::VecDeque and Mutex behave as documented (single-threaded under Kani)"],
     },
-    "C10": {
-        "prefix": r"c10_", "jobs": 4, "quick_timeout": 900,
-        "functions": ["vm::Runtime::{run_n_steps, run_threads_round_robin, finish_thread_turn, drain_new_threads, update_status_helper, try_get_main}",
-                      "vm::VmGreenThread::run_n_steps (thread layer, step and maybe_gc stubbed)"],
-        "bounds": "scheduler layer against a SCRIPTED thread step (VmGreenThread::run_n_steps stubbed): 2 threads (+1 spawned), scripts of 4 "
-                  "symbolic outcomes each {continue, done, error, pending host call, spawn}, budgets b1, b2 in 0..3: run(b1);run(b2) steps the "
-                  "same threads in the same order with the same status as run(b1+b2). Thread layer: run_n_steps(n) = n x (maybe_gc; step). "
-                  "Resumable instructions keep their progress in the thread (C17). The composition is an argument.",
-        "assumptions": ["mpsc::Receiver::try_recv / Sender::send are modelled by a one-slot ghost (Kani cannot compile the real ones)"],
-    },
-    "C11": {
-        "prefix": r"c11_", "jobs": 4, "quick_timeout": 900,
-        "functions": ["vm::Runtime::{run_n_steps, run_threads_round_robin, update_status_helper, top}", "step() arms Stop, HostFunc, Panic",
-                      "VmGreenThread::{status, can_run, clear_pending_host_func}"],
-        "bounds": "scheduler layer with scripted thread steps (as C10): 2 threads, scripts of 4 symbolic outcomes, budget 0..4; arm layer: "
-                  "HostFunc/Stop/Panic with symbolic arguments and return value.",
-        "assumptions": ["mpsc modelled by a one-slot ghost"],
-    },
     "C31": {
         "prefix": r"c31_", "jobs": 4,
         "functions": ["parse::Parser::{parse_binop, parse_prefix_op, parse_postfix_op}", "BinaryOperator::precedence, PrefixOp::precedence, PostfixOp::precedence"],
         "bounds": "operator tables against book/src/language_reference/operators.md for a symbolic token (17 token kinds); prefix-operator "
                   "recognition for a symbolic following token. Outside: the Pratt loop itself (measured out of reach: every current_token() "
                   "clones a Token owning a String) -- grouping beyond what the tables imply is not claimed.",
-        "assumptions": [],
-    },
-    "C32": {
-        "prefix": r"c32_", "jobs": 4, "quick_timeout": 600,
-        "functions": ["vm::VmGreenThread::{pc_to_error_location, make_stack_trace, make_error}", "translate_bytecode::Translator::create_source_location_tables"],
-        "bounds": "symbolic source tables of <= 3 strictly increasing entries, symbolic pc < 100000 and two symbolic call sites; table "
-                  "construction from <= 4 lines (one label) with symbolic (line, file, function) triples. Outside: the text of the traceback "
-                  "(format!), line numbers assigned by the translator to multi-line expressions, peephole-merged instructions.",
         "assumptions": [],
     },
     "C36": {
